@@ -9,7 +9,7 @@ from vlib.jsonvals import canon
 from statham.schema.elements import (
     AllOf, AnyOf, Array, Element, Not, Object, OneOf, String,
 )
-from statham.schema.elements.meta import ObjectMeta
+from statham.schema.elements.meta import ObjectClassDict, ObjectMeta
 from statham.schema.exceptions import SchemaParseError
 from statham.schema.property import Property
 from statham.serializers.orderer import orderer
@@ -18,7 +18,8 @@ PID = "C11"
 RULE = (
     "case = dependency graph on 1-7 uniquely named classes (random DAG edges i->j, j<i, plus "
     "optional late edges closing self-, mutual and long cycles through the documented "
-    "`Cls.properties[...] = Property(...)` / attribute assignment); every edge is realised by placing "
+    "`Cls.properties[...] = Property(...)` / attribute assignment; a class may subclass an earlier one and then "
+    "inherits its properties and un-overridden keywords, i.e. its dependencies); every edge is realised by placing "
     "the target class in a slot of the source class (property, additionalProperties, "
     "patternProperties, propertyNames, dependencies) behind 0-2 wrappers drawn from items, tuple "
     "items, additionalItems, contains, properties, patternProperties, additionalProperties, "
@@ -86,11 +87,15 @@ def cases(draw):
             edges.append({"from": i, "to": j, "late": True,
                           "slot": draw(st.sampled_from(["property", "additionalProperties"])),
                           "wrappers": draw(st.lists(st.sampled_from(WRAPPERS), max_size=2))})
+    bases = {}
+    for i in range(1, n):
+        if draw(st.integers(0, 3)) == 0:
+            bases[str(i)] = draw(st.integers(0, i - 1))
     roots = draw(st.lists(
         st.fixed_dictionaries({"cls": st.integers(0, n - 1),
                                "wrappers": st.lists(st.sampled_from(WRAPPERS), max_size=1)}),
         min_size=1, max_size=4))
-    return {"n": n, "edges": edges, "roots": roots}
+    return {"n": n, "edges": edges, "roots": roots, "bases": bases}
 
 
 def build(case):
@@ -103,7 +108,7 @@ def build(case):
                 el = wrap(w, el)
             slot = e["slot"]
             if slot == "property":
-                props[f"p{k}"] = Property(el)
+                props[f"p{i}_{k}"] = Property(el)
             elif slot == "additionalProperties" and "additionalProperties" not in kwargs:
                 kwargs["additionalProperties"] = el
             elif slot == "propertyNames" and "propertyNames" not in kwargs:
@@ -113,12 +118,20 @@ def build(case):
             elif slot == "dependencies":
                 deps[f"k{k}"] = el
             else:
-                props[f"p{k}"] = Property(el)
+                props[f"p{i}_{k}"] = Property(el)
         if pattern:
             kwargs["patternProperties"] = pattern
         if deps:
             kwargs["dependencies"] = deps
-        classes.append(Object.inline(f"C{i}", properties=props, **kwargs))
+        base = case.get("bases", {}).get(str(i))
+        if base is None:
+            classes.append(Object.inline(f"C{i}", properties=props, **kwargs))
+        else:
+            # class C<i>(C<base>): inherits the base's properties (cloned) and un-overridden keywords
+            classdict = ObjectClassDict()
+            for name, prop in props.items():
+                classdict[name] = prop
+            classes.append(ObjectMeta(f"C{i}", (classes[base],), classdict, **kwargs))
     for k, e in enumerate(x for x in case["edges"] if x["late"]):
         el = classes[e["to"]]
         for w in reversed(e["wrappers"]):
@@ -132,7 +145,33 @@ def build(case):
 
 
 def effective_edges(case):
-    """Edges that actually exist after construction (a later additionalProperties assignment wins)."""
+    """Edges that exist after construction: own + inherited (properties always, keyword slots unless the
+    subclass sets that keyword itself); late edges only affect the class they are applied to."""
+    own = _own_edges(case)
+    bases = case.get("bases", {})
+    static = {}  # class -> [(to, slot)] at class-creation time (late edges excluded)
+    for i in range(case["n"]):
+        mine = [(j, slot) for (f, j, slot, late) in own if f == i and not late]
+        base = bases.get(str(i))
+        if base is not None:
+            my_slots = {slot for _, slot in mine if slot != "property"}
+            mine += [(j, slot) for j, slot in static[base] if slot == "property" or slot not in my_slots]
+        static[i] = mine
+    out = []
+    for i in range(case["n"]):
+        late = [(j, slot) for (f, j, slot, is_late) in own if f == i and is_late]
+        late_ap = [j for j, slot in late if slot == "additionalProperties"]
+        edges_i = list(static[i])
+        if late_ap:
+            edges_i = [(j, slot) for j, slot in edges_i if slot != "additionalProperties"]
+            edges_i.append((late_ap[-1], "additionalProperties"))
+        edges_i += [(j, slot) for j, slot in late if slot == "property"]
+        out += [(i, j) for j, _ in edges_i]
+    return out
+
+
+def _own_edges(case):
+    """(from, to, effective slot, late) for the edges a class declares itself."""
     out = []
     taken = {}
     for e in case["edges"]:
@@ -145,18 +184,11 @@ def effective_edges(case):
                 slot = "property"
             else:
                 taken[(i, slot)] = True
-        out.append((i, e["to"], slot))
-    late_ap = {}
+        out.append((i, e["to"], slot, False))
     for e in case["edges"]:
         if e["late"]:
-            if e["slot"] == "property":
-                out.append((e["from"], e["to"], "property"))
-            else:
-                late_ap[e["from"]] = e["to"]  # last assignment wins
-    for i, j in late_ap.items():
-        out = [x for x in out if not (x[0] == i and x[2] == "additionalProperties")]
-        out.append((i, j, "additionalProperties"))
-    return [(i, j) for i, j, _ in out]
+            out.append((e["from"], e["to"], e["slot"], True))
+    return out
 
 
 def reachable(start, adj):
@@ -270,6 +302,8 @@ def predicate(case, stats):
             fails.append({"sub": "order", "kind": "foreign-class-object-yielded"})
     wrapped = [e for e in case["edges"] if e["wrappers"]]
     cls = ["n:%d" % case["n"], "outcome:" + outcome.split(":")[0], "cyclic" if cyclic else "acyclic"]
+    if case.get("bases"):
+        cls.append("inheritance")
     for e in case["edges"]:
         cls.append("slot:" + e["slot"])
         for w in e["wrappers"]:
